@@ -503,10 +503,21 @@ func genPlan(prop string) func(r *simrt.Rand, tier string) any {
 		}
 		p := &Plan{Prop: prop, Log: g.log}
 		nrep := 2
-		if prop == "C23" {
-			nrep = 0 // C23 judges every reachable state on the reference (and every restored state); lagging replicas add nothing
-		}
 		L := len(p.Log)
+		if prop == "C23" {
+			// C23 judges every reachable state on the reference and every restored
+			// state; lagging replicas add nothing, but the snapshot that raft
+			// persists on another goroutine while Apply continues does: "snap"
+			// events here mean Snapshot() at At, Persist() after Delay more entries.
+			nrep = 0
+			var rep Rep
+			for j, m := 0, r.Intn(3); j < m && L > 0; j++ {
+				rep.Ev = append(rep.Ev, Ev{At: r.Intn(L), K: "snap", Delay: 1 + r.Intn(4)})
+			}
+			if len(rep.Ev) > 0 {
+				p.Reps = append(p.Reps, rep)
+			}
+		}
 		for i := 0; i < nrep; i++ {
 			var rep Rep
 			ne := r.Intn(5)
